@@ -49,6 +49,26 @@ Theorem C05_switch_spec : forall u fuel disp tbl dflt o,
 Proof. exact switch_spec. Qed.
 Print Assumptions C05_switch_spec.
 
+(** … the same, one sentence at a time: the registered branch; else the default; the default
+    also when the dispatch cannot be evaluated, whatever its failure. *)
+Theorem C05_switch_registered : forall u fuel disp tbl dflt o k b,
+  sem u fuel disp o = Ok k -> hashable k = true -> assoc_v k tbl = Some b ->
+  sem u fuel (ESwitch disp tbl dflt) o = sem u fuel b o.
+Proof. exact switch_registered. Qed.
+Print Assumptions C05_switch_registered.
+
+Theorem C05_switch_unregistered_default : forall u fuel disp tbl d o k,
+  sem u fuel disp o = Ok k -> hashable k = true -> assoc_v k tbl = None ->
+  sem u fuel (ESwitch disp tbl (Some d)) o = sem u fuel d o.
+Proof. exact switch_unregistered_default. Qed.
+Print Assumptions C05_switch_unregistered_default.
+
+Theorem C05_switch_dispatch_fails_default : forall u fuel disp tbl d o c ee,
+  sem u fuel disp o = Err c ee -> c <> CUnmodelled ->
+  sem u fuel (ESwitch disp tbl (Some d)) o = sem u fuel d o.
+Proof. exact switch_dispatch_fails_default. Qed.
+Print Assumptions C05_switch_dispatch_fails_default.
+
 (** case-when takes the first matching case: every earlier condition is false of the dispatch
     value, this one is true. *)
 Theorem C05_case_first_match : forall u fuel disp pre c r post dflt o x p b,
@@ -73,6 +93,27 @@ Theorem C05_coalesce_first_evaluable : forall u fuel pre m post o v,
   sem u fuel (ECoalesce (pre ++ m :: post)) o = Ok v.
 Proof. exact coalesce_first_evaluable. Qed.
 Print Assumptions C05_coalesce_first_evaluable.
+
+(** The sentence WITHOUT the side condition on the members passed over — "the first member
+    that can be evaluated, every earlier one failing" — is false of the code as it is (finding
+    D23): a member whose bind function raises aborts the whole coalesce (the exception leaves the
+    member's validate() outside any EvaluateRequest, so it is not an EvaluationError) although
+    the next member validates and evaluates. *)
+Theorem C05_coalesce_first_evaluable_refuted :
+  exists (u : N -> list value -> cres) (fuel : nat) m1 m2 o v,
+    (exists c, sem u fuel m1 o = Err c true) /\
+    sem_valid u fuel m2 o = Ok tt /\ sem u fuel m2 o = Ok v /\
+    exists c, sem u fuel (ECoalesce [m1; m2]) o = Err c true.
+Proof. exact coalesce_first_evaluable_refuted. Qed.
+Print Assumptions C05_coalesce_first_evaluable_refuted.
+
+(** … and it holds under the explicit boolean side condition that every earlier member fails
+    with an EvaluationError (at validation, or after validating). *)
+Theorem C05_coalesce_first_evaluable_partial : forall u fuel pre m post o v,
+  forallb (passed_overb u fuel o) pre = true -> sem_valid u fuel m o = Ok tt -> sem u fuel m o = Ok v ->
+  sem u fuel (ECoalesce (pre ++ m :: post)) o = Ok v.
+Proof. exact coalesce_first_evaluable_b. Qed.
+Print Assumptions C05_coalesce_first_evaluable_partial.
 
 (** collections keep order: Iter, list, tuple (and dict: built from the pairs in order). *)
 Theorem C05_collections_keep_order : forall u fuel es vs o,
@@ -108,6 +149,29 @@ Theorem C05_map_cartesian_in_order : forall u fuel e its o vals out,
 Proof. exact map_cartesian_in_order. Qed.
 Print Assumptions C05_map_cartesian_in_order.
 
+(** … one pair per element of the product (as many as the lengths of the evaluated iterables
+    multiply to), the i-th pair carrying the i-th assignment of the product order. *)
+Theorem C05_map_one_pair_per_combination : forall u fuel e its o vals out,
+  Forall2 (iterates u fuel o) its vals ->
+  map_pairs u fuel e o (map (fun combo => combine (map fst its) combo) (product vals)) out ->
+  sem u fuel (EMap e its) o = Ok (VT T_ITER out) /\
+  length out = fold_right (fun l n => (length l * n)%nat) 1%nat vals /\
+  map pair_fst out = map (fun combo => row_dict (combine (map fst its) combo)) (product vals).
+Proof. exact map_one_pair_per_combination. Qed.
+Print Assumptions C05_map_one_pair_per_combination.
+
+(** "that assignment overriding the caller's options": in the dictionary [mix o os] under which
+    [map_pairs] evaluates the body, the assigned (dotted) key holds the assigned value whatever the
+    caller supplied there, and every key diverging from it keeps the caller's value. *)
+Theorem C05_map_assignment_overrides : forall k j o os,
+  k <> [] -> forallb is_name k = true -> wf_json j = true -> (forall m, j <> JObj m) ->
+  srow_options [(k, VJ j)] = Ok os ->
+  lookup k (JObj (mix o os)) = Found j /\
+  (forall k' w, diverge k k' = true -> forallb is_name k' = true ->
+                lookup k' (JObj o) = Found w -> lookup k' (JObj (mix o os)) = Found w).
+Proof. exact map_assignment_overrides. Qed.
+Print Assumptions C05_map_assignment_overrides.
+
 (** When no branch applies and there is no default, evaluation fails instead of returning a
     value: switch (unregistered value; dispatch not evaluable), case-when, coalesce. *)
 Theorem C05_no_branch_no_value : forall u fuel,
@@ -131,6 +195,13 @@ Theorem C05_apply_is_application : forall u fuel src fn o x f,
   sem u fuel (EApply src fn) o = as_ee (scall_value u f x).
 Proof. exact apply_is_application. Qed.
 Print Assumptions C05_apply_is_application.
+
+Theorem C05_apply_user_function : forall u fuel src fn o x f,
+  sem u fuel src o = Ok x -> sem u fuel fn o = Ok (VF f [] []) -> user_fn f = true -> deep_err x = None ->
+  sem u fuel (EApply src fn) o =
+    match u f [listify x] with COk v => Ok v | CRaise n => Err (CUser n) true end.
+Proof. exact apply_user_function. Qed.
+Print Assumptions C05_apply_user_function.
 
 Theorem C05_bind_is_application : forall u fuel src tbl dflt o x b,
   sem u fuel src o = Ok x -> assoc_v x tbl = Some b -> sem u fuel (EBind src tbl dflt) o = sem u fuel b o.
@@ -239,3 +310,26 @@ Example C05_ex_composite :
   fst (eval_nc u0 10 e []) = consumed (sem u0 10 e []) /\
   exists v, sem u0 10 e [] = Ok v.
 Proof. vm_compute. split; [reflexivity|eexists; reflexivity]. Qed.
+
+(** the side conditions of the case-when and coalesce theorems are satisfiable, and the D23 shape
+    is exactly what the boolean side condition excludes *)
+Example C05_ex_side_conditions :
+  passed_overb u0 10 [] (EOption kA None None) = true /\
+  passed_overb u0 10 [] (body 200 [EOption kA None None]) = true /\
+  passed_overb u0 10 [] (EBind (cst (JInt 2)) [] None) = false /\
+  (exists p b, sem u0 10 (EValue (VF 101 [] [])) [] = Ok p /\ scall_value u0 p (VJ (JInt 5)) = Ok b /\ truthy b = false).
+Proof. vm_compute. repeat split. eexists; eexists; repeat split. Qed.
+
+(** bind, apply and a two-key Map assignment overriding a section the caller partly supplies *)
+Example C05_ex_bind_apply_override :
+  sem u0 10 (EBind (EOption kA None None) [(VJ (JInt 1), EOption kB None None)] (Some (cst JNull)))
+      [(SName 10, JInt 1); (SName 11, JInt 7)]%N = Ok (VJ (JInt 7)) /\
+  sem u0 10 (EApply (EOption kA None None) (EValue (VF 200 [] []))) [(SName 10, JInt 1)]%N = Ok (VT 200 [VJ (JInt 1)]) /\
+  sem u0 10 (EApply (EMap (elist [EOption [SName 20; SName 21]%N None None; EOption [SName 20; SName 22]%N None None; EOption kA None None])
+                          [([SName 20; SName 21]%N, cst (JList [JInt 1])); (kA, cst (JList [JInt 2]))])
+                    (EValue (VF B_LIST [] [])))
+      [(SName 20, JObj [(SName 21, JInt 8); (SName 22, JInt 9)]); (SName 10, JInt 0)]%N
+  = Ok (VT T_LIST [VT T_TUPLE [VT T_DICT [VT T_PAIR [VJ (JStr [TRef [SName 20; SName 21]%N]); VJ (JInt 1)];
+                                          VT T_PAIR [VJ (JStr [TRef kA]); VJ (JInt 2)]];
+                               VT T_LIST [VJ (JInt 1); VJ (JInt 9); VJ (JInt 2)]]]).
+Proof. vm_compute. repeat split. Qed.
